@@ -24,6 +24,7 @@ func mainLoop(L *LState, baseframe *callFrame) {
 		cf = L.currentFrame
 		inst = cf.Fn.Proto.Code[cf.Pc]
 		cf.Pc++
+		verifStep(L)
 		if jumpTable[int(inst>>26)](L, inst, baseframe) == 1 {
 			return
 		}
@@ -48,11 +49,13 @@ func mainLoopWithContext(L *LState, baseframe *callFrame) {
 		cf = L.currentFrame
 		inst = cf.Fn.Proto.Code[cf.Pc]
 		cf.Pc++
+		verifStep(L)
 		select {
 		case <-L.ctx.Done():
 			L.RaiseError(L.ctx.Err().Error())
 			return
 		default:
+			verifDispatch(L)
 			if jumpTable[int(inst>>26)](L, inst, baseframe) == 1 {
 				return
 			}
